@@ -20,6 +20,7 @@ func init() {
 	intrinsics = map[string]intrinsic{
 		"fmt.Errorf":   freshError,
 		"fmt.Sprintf":  sprintf,
+		"encoding/binary.Read": binaryRead,
 		"errors.New":   freshError,
 		"bytes.Equal":  bytesEqual,
 		"google.golang.org/protobuf/proto.Unmarshal": protoUnmarshal,
@@ -449,4 +450,47 @@ func constantString(k *ssa.Const) string {
 		return ""
 	}
 	return constant.StringVal(k.Value)
+}
+
+// binaryRead models encoding/binary.Read(r, order, data) for data = pointer to a fixed-size integer or byte
+// array: it consumes up to size bytes from the reader model (exactly size on success) and stores an
+// arbitrary well-typed value.
+func binaryRead(f *Frame, in ssa.Instruction, args []SV, cc *ssa.CallCommon, st *State, g string) (SV, bool) {
+	c := f.c()
+	d := args[2]
+	if d.Dyn == nil || d.DynV == nil {
+		return SV{}, false
+	}
+	pt, ok := d.Dyn.Underlying().(*types.Pointer)
+	if !ok {
+		return SV{}, false
+	}
+	size := types.SizesFor("gc", "amd64").Sizeof(pt.Elem())
+	switch u := pt.Elem().Underlying().(type) {
+	case *types.Basic:
+		if _, _, isInt := intInfo(pt.Elem()); !isInt {
+			return SV{}, false
+		}
+	case *types.Array:
+		if _, _, isInt := intInfo(u.Elem()); !isInt {
+			return SV{}, false
+		}
+	default:
+		return SV{}, false
+	}
+	f.x.syncViews(st)
+	f.x.usedStub["model: encoding/binary.Read consumes exactly sizeof(*data) bytes on success (fewer on error) and stores an arbitrary value"] = true
+	rd := c.ghostVar("rdLeft", "(Array Int Int)")
+	rref := "(i.ref " + args[0].T + ")"
+	left := sel(st.get(rd), rref)
+	n := c.freshConst("brn", "Int")
+	res := freshErrorOrNil(f, in, st, g)
+	okc := "(= (i.tid " + res.T + ") 0)"
+	c.assume(g, fmt.Sprintf("(and (<= 0 %s) (<= %s %d) (<= %s %s) (= %s (= %s %d)))", n, n, size, n, left, okc, n, size))
+	st.set(rd, sto(st.get(rd), rref, "(- "+left+" "+n+")"))
+	nv := c.freshConst("brv", c.sortOf(pt.Elem()))
+	c.assume(g, c.wf(pt.Elem(), nv, st.wm()))
+	f.store(st, *d.DynV, pt.Elem(), nv, g, f.where(in))
+	f.x.syncViews(st)
+	return res, true
 }
